@@ -9,9 +9,9 @@ class _RL(dict):
 
 
 UNIT_RLIMIT = _RL({"div_small": 80, "mul_redc": 80})      # unit -> --rlimit (Verus default is 10; 5x head-room over the measured maximum)
-UNIT_TIMEOUT = {"knuth": 1500, "addmul": 900}     # unit -> seconds
+UNIT_TIMEOUT = {"knuth": 1500, "addmul": 900, "mul_redc": 1200}     # unit -> seconds
 UNIT_EXPECT = {       # unit -> minimum number of verified functions on the unchanged tree (vacuity guard)
-    "core": 31, "add": 29, "kernels": 79, "addmul": 71, "addmul_n": 73, "mul": 51, "divd": 45, "div_small": 235, "knuth": 145, "mul_redc": 69, "basics": 22, "pow": 38, "divw": 54, "modular": 51, "spigot": 44, "gcd": 21, "forward": 57, "invring": 36,
+    "core": 31, "add": 29, "kernels": 79, "addmul": 71, "addmul_n": 73, "mul": 51, "divd": 45, "div_small": 235, "knuth": 145, "mul_redc": 118, "basics": 22, "pow": 38, "divw": 54, "modular": 51, "spigot": 44, "gcd": 21, "forward": 57, "invring": 36, "bitlen": 70, "shifts": 121, "recip_table": 2,
 }
 
 COMMON_TRUST = [
@@ -128,6 +128,20 @@ PROPS = {
         trusted=COMMON_TRUST,
         not_decided=["inv_ring above 16 bits", "iterator Product beyond 2 elements", "Mul/MulAssign operator shapes (forwarding only)"],
     ),
+    "C05": dict(
+        level="proof",
+        level_text="Verus proves, for every BITS/LIMBS, every value and EVERY usize shift amount (whole-limb, sub-limb, mixed, >= BITS, >= 64*LIMBS): overflowing_shl returns (value*2^s mod 2^BITS, value*2^s >= 2^BITS), "
+                   "overflowing_shr returns (floor(value/2^s), value mod 2^s != 0); checked_shl/saturating_shl/wrapping_shl/checked_shr/wrapping_shr follow from those contracts",
+        level_note="NOT under Verus: the operator overloads (<<, >> for each integer type and for Uint-typed amounts: macro-generated, Kani per width), rotate_left/right and arithmetic_shr (built from the operators; Kani per width). "
+                   "ASSUMED: derived PartialEq (limb-wise == value equality)",
+        technique="deductive contracts (Verus, all widths and all shift amounts) + Kani per width for operators, rotations and arithmetic shift",
+        units=["core", "shifts"],
+        kani=dict(features=None, quick=hs("c05", None, r"_slow"), thorough=hs("c05"), bounds="see kani/src/c05.rs: fixed widths, all values, all shift amounts up to BITS + 64*LIMBS + 1"),
+        explanation="loop invariant lv(r[L..L+i]) + B^i*carry = lv(self[0..i]) * 2^b (shl) resp. lv(r[k-i..k]) * 2^b + (y mod 2^b) = lv(self[n-i..n]) (shr) with the carry tied to the previous limb; "
+                    "lemma_shl_result / lemma_shr_result lift limb facts to value*2^s mod 2^BITS, floor(value/2^s) and the exact lost-bits flag",
+        trusted=COMMON_TRUST,
+        not_decided=["operator overloads and Uint-typed shift amounts beyond the Kani widths", "rotations / arithmetic_shr beyond the Kani widths"],
+    ),
     "C07": dict(
         level="other",
         level_text="Kani proves, per width and for ALL values of the source type / all canonical Uint values, the exact Ok/Err classification, the payloads, and the wrapping/saturating forms of "
@@ -208,16 +222,18 @@ PROPS = {
     ),
     "C11": dict(
         level="proof",
-        level_text="Verus proves mul_redc<N> (CIOS Montgomery multiplication) for ALL N on the extracted real code: for inv*m[0] = -1 mod 2^64 and a, b < m the result r satisfies r < m and "
-                   "2^(64N) * r = a*b + m*mu for some integer mu, i.e. r = a*b*2^(-64N) mod m fully reduced; also carrying_mul_add",
-        level_note="ASSUMED: reduce1_carry/sub (zip over arrays by value is outside the Verus subset; contract discharged per N in 1..4 by Kani c11), Ordering::eq; NOT decided: square_redc (separate body with doubled "
-                   "cross terms, not yet under proof), the Uint::mul_redc/square_redc wrappers",
+        level_text="Verus proves mul_redc<N> (CIOS Montgomery multiplication) AND square_redc<N> (Montgomery squaring with doubled cross terms) for ALL N on the extracted real code: for inv*m[0] = -1 mod 2^64 "
+                   "and a, b < m the result r satisfies r < m and 2^(64N) * r = a*b + m*mu (resp. a*a + m*mu) for some integer mu, i.e. r = a*b*2^(-64N) mod m fully reduced; also carrying_mul_add and carrying_double_mul_add",
+        level_note="ASSUMED: reduce1_carry/sub (zip over arrays by value is outside the Verus subset; contract discharged per N in 1..4 by Kani c11), Ordering::eq, u128::overflowing_add; "
+                   "NOT decided: the Uint::mul_redc/square_redc wrappers (array pass-through)",
         technique="deductive contracts (Verus, all N) + Kani per N for the final conditional subtraction",
         units=["add", "kernels", "mul_redc"],
         kani=dict(features=None, quick=hs("c11"), thorough=hs("c11"), bounds="reduce1_carry: N in 1..4, all inputs"),
-        explanation="outer invariant B^k * Acc = a * lv(b,k) + m*mu and Acc < 2m; inner row invariant; threshold argument for the dropped carry",
+        explanation="mul_redc: outer invariant B^k * Acc = a * lv(b,k) + m*mu and Acc < 2m; inner row invariant; threshold argument for the dropped carry. "
+                    "square_redc: outer invariant B^i * Acc = P_i*(2a - P_i) + m*mu with P_i = lv(a,i), mu < B^i, hence Acc < 2a + m < 3m (carry_outer <= 2) and Acc < 2m at the end; "
+                    "two inner invariants (row of doubled products with a two-word carry, reduction row); the 0x3fff.. threshold branch is proved not to drop a carry",
         trusted=COMMON_TRUST,
-        not_decided=["square_redc", "Uint::mul_redc / Uint::square_redc wrappers"],
+        not_decided=["Uint::mul_redc / Uint::square_redc wrappers"],
     ),
     "C18": dict(
         level="other",
